@@ -89,6 +89,7 @@ func (f *fAdapterTransport) Open() error {
 }
 
 func (f *fAdapterTransport) readLoop(closeSignal chan struct{}) {
+	verifHook("life.rl.start", f, 0, 0)
 	framedTransport := NewTFramedTransport(f.transport)
 	for {
 		frame, err := f.readFrame(framedTransport)
